@@ -32,7 +32,7 @@ CHECKS['C16'] = dict(
     category='model_checking', design_ref='DESIGN.md §3 C16',
     technique='explicit-state BFS over operation histories on the real rib.RIB with the post-change hook folded into a mirror; resolved-entry hook: the same histories under the controlled runtime with every delivered snapshot compared with the model',
     text=('Every history of a 22-letter alphabet up to the depth bound, for hook registration before and after creation of the network instance: folding the notifications '
-          '(ADD sets, DELETE removes, nil DELETE is a no-op) must reproduce RIBContents() in every network instance after every step, for Modify-style calls, held-operation resolution and Flush.'),
+          '(ADD sets, DELETE removes, nil DELETE is a no-op) must reproduce RIBContents() in every network instance after every step, for Modify-style calls, held-operation resolution and Flush. One configuration creates the second network instance only after entries were installed in the default one and the contents were read (post-change hook and resolved-entry hook).'),
     note='Resolved-entry hook tier: 16-letter alphabet from the empty RIB and three start states (one asymmetric: the second network instance exists but is empty) under the controlled runtime (the hook runs in its own goroutine) in two schedules - hook goroutine runs after every step / only after the whole history (lagging consumer); each ADD snapshot must contain and each DELETE snapshot lack the announced entry, announcements must match acknowledgements, and a delivered snapshot must not change afterwards. Post-change searches are repeated under descending map order. Bounded depth.')
 ENGINES.append({'name': 'input-enumeration', 'path': 'harness/flushenum, harness/getenum, harness/malformed', 'serves_properties': ['C07', 'C08', 'C12'],
      'kind_free_text': 'bounded-exhaustive enumeration of structured inputs (catalogue x request x decision-table cell; builder-call subsets; mutation closure) executed on fresh real servers against a reference decision table / model'})
@@ -62,21 +62,21 @@ CHECKS['C07'] = dict(
     technique='bounded-exhaustive input enumeration (all 8192 builder-call subsets, payload alphabets, catalogue x scope x table) on the real Get path + history BFS with a Get after every step',
     text=('(a) every subset of the 13 fluent next-hop builder calls and a field alphabet covering every field of every AFT message is programmed into a real RIB and read back through the real Server.Get over the in-memory transport: '
           'the returned payload must equal the programmed one field for field; (b) 14 catalogue RIBs x {DEFAULT, VRF, all} x {5 tables, ALL}: the stream must be exactly the installed entries in scope, ALL the disjoint union of the tables, '
-          'undefined scopes return nothing; FromGetResponses rebuilds the source; (c) history tier: every history to depth 3 (thorough 5) from three start states with the real GetRIB run after every step: the stream equals the fold of acknowledged operations.'),
+          'undefined scopes return nothing; FromGetResponses rebuilds the source; (c) history tier: every history to depth 3 (thorough 5) from three start states with the real GetRIB run after every step: the stream equals the fold of acknowledged operations. The scope catalogue and one history search are repeated with the second network instance created late (after requests over all instances were served).'),
     note='Schema-rejected payload combinations create no expectation. Get runs with real goroutines (native mode) — its result is schedule-independent; abandonment is C10.')
 CHECKS['C08'] = dict(
     category='model_checking', engine='input-enumeration', design_ref='DESIGN.md §3 C08',
     technique='exhaustive enumeration of RIB catalogue x Flush target x election decision table on the real Server.Flush against the specification table',
     text=('16 RIBs (shared / missing / circular / self backups, cross-instance references in both directions, held operations) x 6 targets x 8 (thorough 11) election fields x 3 (thorough 6) learnt ids x both iteration orders of the maps of the RIB on a fresh real server: '
           'a malformed or unauthorised request gets one of the codes the specification assigns to the malformations that apply and changes nothing; an authorised one empties exactly the named instances, answers OK, '
-          'and leaves deletion protection equal to the referrers that remain (checked on counters and behaviourally by re-installing groups that remaining entries still point at).'),
+          'and leaves deletion protection equal to the referrers that remain (checked on counters and behaviourally by re-installing groups that remaining entries still point at). The whole table is run once more on a server whose second network instance is created by Server.AddNetworkInstance after the server has already served a Flush and reads over all instances.'),
     note='Where specification and proto comments allow two answers (override with no id learnt; coinciding malformations) the oracle accepts the set.')
 CHECKS['C12'] = dict(
     category='model_checking', engine='input-enumeration', design_ref='DESIGN.md §3 C12',
     technique='bounded-exhaustive mutation closure (protoreflect walk x operator set; singles, thorough: pairs) of valid AFT operations / Get / Flush requests in 3 pre-states on the real handlers',
     text=('Every single structured mutation (thorough: every pair) of one valid message per entry kind and operation type — clear/empty sub-message, other oneof arm, undefined/zero/last enum, boundary integers, malformed strings, '
           'empty/duplicated lists — applied in three pre-states (empty, chain installed and referenced, held operations) and under both iteration orders of the maps of the code (ordered-map seam) through the real doModify, Get (under the controlled runtime so a goroutine panic is a verdict) and Flush: '
-          'no panic, the call returns, a rejected request leaves RIB / held set / counters identical, and the invalid classes the property lists are rejected. Every single-mutation case, Get and Flush is run a second time inside ONE controlled execution followed by a liveness probe (a new session negotiates, wins the election, programs an entry, reads it back, flushes): a lock, goroutine or channel left behind is the scheduler\'s exact deadlock verdict.'),
+          'no panic, the call returns, a rejected request leaves RIB / held set / counters identical, and the invalid classes the property lists are rejected. Every single-mutation case, Get and Flush is run a second time inside ONE controlled execution followed by a liveness probe (a new session negotiates, wins the election, programs an entry, reads it back, flushes): a lock, goroutine or channel left behind is the scheduler\'s exact deadlock verdict. 405 requests of THREE operations (two invalid mutants and the valid seed) check that every operation of a request is answered exactly once under its own id.'),
     note='Byte-level fuzzing of the wire format is a different family and not attempted; for a DELETE naming a syntactically invalid key that aliases nothing either verdict is accepted.')
 ENGINES.append({'name': 'schedule-dfs', 'path': 'rt/ (controlled scheduler + shims), cmd/vinstr (overlay instrumenter), mc/dfs.go', 'serves_properties': ['C05', 'C11'],
      'kind_free_text': 'stateless depth-first exploration of thread schedules and environment choices of the real, source-instrumented code under a cooperative scheduler, with iterative preemption / deviation bounding; exact deadlock detection; Go race detector made scheduler-blind for data races'})
@@ -89,7 +89,7 @@ CHECKS['C11'] = dict(
     text=('Twelve scenarios of 3-4 threads with colliding keys (a Get racing one writer that deletes a whole chain: the Get must return, per network instance, exactly one of the states the writer produced; a primary hand-over while the old primary\'s batch with forward references is being applied and the new primary programs forward references of its own: per-session acknowledgements = installed entries, final election state; announce/announce/read; Modify chain vs Get vs Flush; negotiate/negotiate/disconnect; Flush(id) vs announce; primary vs non-primary on one key; '
           'RIB add/delete with resolved-entry hook goroutine; AddNetworkInstance vs Get vs Flush; RIBContents vs cross-instance Flush vs AddNetworkInstance; deletes vs Flush vs Get; a Get over both populated instances abandoned by its client vs Modify vs Flush) run on the real server handlers under the controlled scheduler, '
           'every schedule within 2 (thorough 3) deviations from the default scheduler. Oracles per execution: Go race detector reports (hand-offs hidden with RaceDisable, program happens-before declared on tokens), exact deadlock '
-          '(no enabled thread), panic, every call returns, election linearizable, quiescent RIB = acknowledged operations, a concurrent Get is a snapshot of each instance. Executions that reach a state (hash of every thread\'s causal past, pending operation and the modelled synchronisation objects) already expanded with the same remaining budget are cut (self-tested against the search without the cache: VERIF_DIFF=1).'),
+          '(no enabled thread), panic, every call returns, election linearizable, quiescent RIB = acknowledged operations, a concurrent Get is a snapshot of each instance. Executions that reach a state (hash of every thread\'s causal past, pending operation and the modelled synchronisation objects) already expanded with the same remaining budget are cut (self-tested against the search without the cache: VERIF_DIFF=1). The two disconnect schedules of C10 (a session cut by cancel / transport failure with a batch in flight, every schedule within the deviation bound, then the liveness probe) run under this command too, in the -race build.'),
     note='Participants and bound are fixed (3-4 threads, <=3 deviations); sessions are driven at the handler API (the per-stream goroutine plumbing is C06/C10); weak-memory effects without a detectable race are out of scope. The race oracle is self-tested by cmd/rtlitmus.')
 ENGINES.append({'name': 'stream-history-bfs', 'path': 'harness/streams + wire/ + rt/', 'serves_properties': ['C09', 'C10'],
      'kind_free_text': 'explicit-state BFS over message / fault histories on REAL Modify and Get streams: the handler goroutines run as threads of the controlled runtime behind the in-memory transport, each step is run to quiescence under the default schedule, whole histories are re-executed on a fresh server'})
@@ -98,7 +98,7 @@ CHECKS['C09'] = dict(
     technique='explicit-state BFS over message sequences on 2-3 real Modify streams (server handler + receive loop + result pump under the controlled runtime), session/election reference model with status-code sets from the specification',
     text=('Every sequence to depth 6 (thorough 7, 3 sessions) of open / parameters (5, thorough all 8 mode combinations) / election id (zero, low, high) / operation (stamped, unstamped, batch [violating, valid]) / the three two-field messages / half-close '
           'on real Modify RPCs of the real server, from the empty server, from an established primary and from a primary with a held operation. For each message the model yields OK or the set of status codes and ModifyRPCErrorDetails reasons that specification §4.1 and the compliance suite allow; '
-          'a terminating violation must not send a response first, must leave RIB, held operations, election state and every other session and stream untouched, and must remove the failed session from the session table.'),
+          'a terminating violation must not send a response first, must leave RIB, held operations, election state and every other session and stream untouched, and must remove the failed session from the session table. After every terminating violation a fresh session must be able to negotiate (with other parameters when no negotiated session is live), win the election, program an entry, read it back and flush: the failed session must not constrain later ones - "blocked for ever" is the scheduler\'s verdict.'),
     note='Each message is run to quiescence under the default schedule (interleavings inside a message are C11); where the statement is silent (a live session that has not negotiated yet) both answers are accepted.')
 CHECKS['C10'] = dict(
     category='fault_enumeration', engine='stream-history-bfs', design_ref='DESIGN.md §3 C10',
@@ -143,7 +143,7 @@ CHECKS['C18'] = dict(
     technique='bounded-exhaustive enumeration of fluent builder call sequences (length <= 4, thorough 5) and client call sequences (length <= 5, thorough 6) against a field-map model; queued messages compared byte-wise before/after later calls',
     text=('Every sequence of With*/Add* calls with 2-value argument domains per entry kind: OpProto()/EntryProto() must equal the independently rendered field map after every call and messages obtained earlier must not change. '
           'Every sequence of AddEntry / ReplaceEntry / DeleteEntry (one or two entries, entry with its own election id) / UpdateElectionID on a real fluent client in elected-primary and all-primary mode - each program with a fresh Modify() wrapper per call, on ONE wrapper held for all calls, and chained on the returned wrappers - observed through the real client\'s pending queue: '
-          'ids 1,2,3,..., requested operation type, stamp = id most recently set when queued unless the entry has its own, and no queued operation is altered by a later call.'),
+          'ids 1,2,3,..., requested operation type, stamp = id most recently set when queued unless the entry has its own, and no queued operation is altered by a later call. Every client program ends with StartSending on a recording stub: the operations that reach the Modify stream must equal, in order, what was queued.'),
     note='No transport involved (operations are observed in the client before sending).')
 ENGINES.append({'name': 'suite-history-search', 'path': 'harness/compl + wire/ + rt/', 'serves_properties': ['C19'],
      'kind_free_text': 'explicit-state search whose transitions are whole compliance tests on one long-lived reference server (real fluent client + real client + real server as threads of the controlled runtime, virtual time): closure over canonical server states, all ordered pairs, shuffle permutations; fault-wrapper catalogue'})
